@@ -1501,6 +1501,7 @@ func (s *Server) publishSysTopics() {
 		s.publishToSubscribers(pk)
 	}
 
+	atomic.StoreInt64(&s.Info.Retained, int64(s.Topics.Retained.Len()))
 	s.hooks.OnSysInfoTick(info)
 }
 
@@ -1745,6 +1746,8 @@ func (s *Server) clearExpiredRetainedMessages(now int64) {
 			s.hooks.OnRetainedExpired(filter)
 		}
 	}
+
+	atomic.StoreInt64(&s.Info.Retained, int64(s.Topics.Retained.Len()))
 }
 
 // clearExpiredInflights deletes any inflight messages which have expired.
